@@ -236,7 +236,9 @@ class Vertex(base.BaseObject):
 
         :param link: the link to add this vertex to
         """
-        if link not in self._links:
+        # "already attached" means this very link object: a link class may
+        # define value equality, and == duplicate links are allowed
+        if not any(lnk is link for lnk in self._links):
             self._links.append(link)
 
             # "this vertex" means this very object: a subclass may define value
@@ -254,9 +256,12 @@ class Vertex(base.BaseObject):
         :param link: the link to remove this vertex from.
         """
 
-        if link in self._links:
-            self._links.remove(link)
-            link.unlink_from(self)
+        # by identity, for the same reason as in add_to_link
+        for idx, lnk in enumerate(self._links):
+            if lnk is link:
+                del self._links[idx]
+                link.unlink_from(self)
+                break
 
         self._qa_neighbors_invalidate()
 
